@@ -131,6 +131,11 @@ class FaultService(Protocol):
     def exch_h(self, tag: int, init: str, ilogs: int, script: str, logs: int) -> Stream[ExchangeState, Hdr]: ...
 
 
+def _small(tag: int) -> int:
+    """Keep results representable as int64 (an unserialisable *result* is outside C04/C05's fault list)."""
+    return tag if abs(tag) < 2**40 else 0
+
+
 class FaultServiceImpl:
     """Implementation; includes the implementation faults the property quantifies over."""
 
@@ -138,7 +143,7 @@ class FaultServiceImpl:
         return nonce
 
     def enumy(self, tag: int, c: Color) -> int:
-        return tag * 2 + (1 if c is Color.RED else 2)
+        return _small(tag) * 2 + (1 if c is Color.RED else 2)
 
     def unary(self, tag: int, mode: str, logs: int, ctx: CallContext | None = None) -> int:
         if ctx is not None:
@@ -148,7 +153,7 @@ class FaultServiceImpl:
             raise ValueError(f"boom-{tag}")
         if mode == "none":
             return None  # type: ignore[return-value]
-        return tag * 2 + 1
+        return _small(tag) * 2 + 1
 
     def _init(self, kind: str, tag: int, init: str, ilogs: int, script: str, logs: int, ctx: CallContext | None):  # type: ignore[no-untyped-def]
         if ctx is not None:
